@@ -28,6 +28,10 @@ RANGE.update({'Annual License Fees Etc': (0, 3), 'One-time Flat License Fees Etc
               'Electricity Rate': (0, 0.3), 'All-in Vertical Drilling Costs': (100, 5000), 'Surface Piping Length': (0, 20)})
 
 
+PLANT_COSTS = {5: ['Absorption Chiller Capital Cost', 'Absorption Chiller O&M Cost'], 6: ['Heat Pump Capital Cost'],
+               7: ['Peaking Fuel Cost Rate', 'District Heating Piping Cost Rate', 'Total District Heating Network Cost', 'District Heating O&M Cost']}
+
+
 def ladder_values(rng, lo, hi, k=5):
     return sorted({round(rng.uniform(lo, hi), 6) for _ in range(k)})
 
@@ -110,14 +114,30 @@ def run(tier: str) -> int:
               {'parameter': 'Reservoir Depth', 'base': tag, 'correlation': (k % 17) + 1},
               precondition=lambda r: 500 <= r['depth_m'] <= 7000)
         # --- NPV / levelized cost vs cost inputs
-        names = rng.sample(COST_PARAMS, 5 if tier == 'quick' else 12)
+        own = PLANT_COSTS.get(int(p.get('Power Plant Type', 0)), [])       # costs only this plant type has: always laddered
+        rest = [n for n in COST_PARAMS if n not in own and not any(n in v for v in PLANT_COSTS.values())]
+        names = own + rng.sample(rest, 5 if tier == 'quick' else 12)
         for name in names:
             lo, hi = RANGE[name]
-            vals = ladder_values(rng, lo, hi)
+            # the ends of the range are rungs too: 0 is a legitimate user-supplied cost, not the "not provided" sentinel
+            vals = sorted(set(ladder_values(rng, lo, hi)) | {float(lo), float(hi)})
             rungs = [(x, with_param(p, name, x)) for x in vals]
             L.add('C18_npv_cost', 'nonincreasing', lambda r: r['out']['npv'], rungs, {'parameter': name, 'base': tag})
             L.add('C18_lc_cost', 'nondecreasing', lambda r: [r['out']['lcoe'], r['out']['lcoh'], r['out']['lcoc']], rungs,
                   {'parameter': name, 'base': tag}, precondition=energy_positive)
+    # the end-use equipment costs of the three special heat plants, on bases that leave plant and total cost to the correlations
+    for k in range(6 if tier == 'quick' else 36):
+        plant = (5, 6, 7)[k % 3]
+        p = gen.base(rng, rng.choice([4, 3]), 2, plant, (k % 3) + 1, lifetime=rng.choice([5, 10, 20]), steps=2)
+        gen.add_prices(p, rng)
+        for name in PLANT_COSTS[plant]:
+            p.pop(name, None)
+            lo, hi = RANGE[name]
+            vals = sorted(set(ladder_values(rng, lo, hi, 3)) | {float(lo), float(hi)} | {round(lo + (hi - lo) * 0.01, 6)})
+            rungs = [(x, with_param(p, name, x)) for x in vals]
+            L.add('C18_npv_cost', 'nonincreasing', lambda r: r['out']['npv'], rungs, {'parameter': name, 'base': f'plant{plant}#{k}'})
+            L.add('C18_lc_cost', 'nondecreasing', lambda r: [r['out']['lcoe'], r['out']['lcoh'], r['out']['lcoc']], rungs,
+                  {'parameter': name, 'base': f'plant{plant}#{k}'}, precondition=energy_positive)
     # multi-segment columns whose temperature cap binds in a deeper segment (the states Resource.tla's lemma quantifies over)
     for k in range(6 if tier == 'quick' else 60):
         p = gen.base(rng, 4, 2, 9, 2, lifetime=5, steps=2)
